@@ -140,7 +140,7 @@ def check(run, replay):
             return cfg
         return f
 
-    np_, nc = (14, 10) if quick else (150, 25)
+    np_, nc = (12, 8) if quick else (150, 25)
     fails = X.e2e(run, model, np_, nc, "end-to-end cppcheck runs (exit status)", compare, ctu=True, want_nofail=True, force=force_witness())
     for f in fails[:2]:
         key = "e2e:" + hashlib.sha1(repr((sorted(f["files"].items()), f["argv"])).encode()).hexdigest()[:12]
